@@ -5,7 +5,7 @@ from llsym import Finding, Sym
 from irparse import IntTy
 i8, i32, i64 = IntTy(8), IntTy(32), IntTy(64)
 UNDEF = 2147483647
-KN = {0: 'DenseMemArray', 1: 'SparseMemArray', 2: 'FlexMem (sparse)', 3: 'FlexMem (switch_to_dense after the insertions)', 4: 'FlexMem (dense from the start)'}
+KN = {0: 'DenseMemArray', 1: 'SparseMemArray', 2: 'FlexMem (sparse)', 3: 'FlexMem (switch_to_dense after the insertions)', 4: 'FlexMem (dense from the start)', 5: 'SparseMemMap (std::map; red-black tree maintenance modelled as an unbalanced search tree)'}
 
 
 def inputs(I, n, idbound, probebound=None):
@@ -119,8 +119,8 @@ def harnesses(tier):
     q = tier == 'quick'
     N = 3 if q else 4
     hs = []
-    hs.append(Harness('map_history', 'maps', h_map, jobs=[dict(kind=0, n=N, idbound=10), dict(kind=1, n=N), dict(kind=2, n=N), dict(kind=3, n=2, idbound=8), dict(kind=4, n=2, idbound=8)],
-                      desc='%d insertions with distinct symbolic ids (any order) + sort, then get()/get_noexcept() of a symbolic id on DenseMemArray, SparseMemArray, FlexMem (sparse, switched to dense, dense): exactly the inserted value for inserted ids, not found / empty otherwise' % N,
+    hs.append(Harness('map_history', 'maps', h_map, jobs=[dict(kind=0, n=N, idbound=10), dict(kind=1, n=N), dict(kind=2, n=N), dict(kind=3, n=2, idbound=8), dict(kind=4, n=2, idbound=8), dict(kind=5, n=N)],
+                      desc='%d insertions with distinct symbolic ids (any order) + sort, then get()/get_noexcept() of a symbolic id on DenseMemArray, SparseMemArray, FlexMem (sparse, switched to dense, dense), SparseMemMap: exactly the inserted value for inserted ids, not found / empty otherwise' % N,
                       bounds='%d insertions; 64-bit ids for the sparse kinds, ids < 10 / < 8 for the dense kinds (vector indexed by id)' % N, testgen=lambda rnd: [dict(_job=3, **t) for t in gen(2, 8)(rnd)], wall=900, step_cap=20_000_000))
     hs.append(Harness('dump_list', 'maps', h_dump_list, jobs=[dict(kind=1, n=3)], desc='SparseMemArray dump_as_list (write() replaced by a byte recorder): the bytes are the (id, value) records sorted by id', bounds='3 entries'))
     hs.append(Harness('dump_array', 'maps', h_dump_array, jobs=[dict(n=2, idbound=6)], desc='DenseMemArray dump_as_array: slot i holds the value of id i, the empty value elsewhere', bounds='2 entries, ids < 6'))
